@@ -116,3 +116,42 @@ Corollary C11_source_esubst_textbook : forall a x r c, concrete a = true -> gen_
 Proof. intros a x r c. rewrite gen_apply_esubst_eq. apply C11_esubst_textbook. Qed.
 Corollary C11_source_ssubst_textbook : forall a X r c, concrete a = true -> gen_apply_ssubst a X r = Some c -> c = ssubst_ref a X r.
 Proof. intros a X r c. rewrite gen_apply_ssubst_eq. apply C11_ssubst_textbook. Qed.
+
+(** ** generator side (pattern.py): the same algebra through notation.  Model and proofs: coq/Py
+       (notes/PY_MODEL.md); [p_inst p_esubst p_ssubst] are the Python methods on expanded patterns,
+       [py_inst py_esubst py_ssubst] the real methods on patterns with notation (fuel; totality in
+       Py/Total.v).  Premises [f_* = true] name the repairs a configuration must contain; the current
+       code has D5 repaired (2592e1c); [f_mv_keep_subst] is the recorded finding D9d. *)
+From Pi2 Require Import Py.Pattern Py.PatFacts Py.SubstFacts Py.ExpandFacts Py.RulesFacts Py.Total Py.Termination Py.Witness.
+Theorem C11_py_inst_compose : forall f, f_mv_keep_subst f = true -> forall t s' s,
+  p_inst f (p_inst f t s') s = p_inst f t (amap (fun v => p_inst f v s) s' ++ unshadowed s s').
+Proof. exact p_inst_comp. Qed.
+Print Assumptions C11_py_inst_compose.
+Theorem C11_py_inst_through_notation : forall f, f_mv_keep_subst f = true -> f_inst_extend f = true ->
+  forall n p d r, py_inst f n p d = Some r -> expand f r = p_inst f (expand f p) (expand_delta f d).
+Proof. exact py_inst_expand. Qed.
+Theorem C11_py_esubst_through_notation : forall f, f_mv_keep_subst f = true -> f_inst_extend f = true ->
+  forall n p x g r, py_esubst f n p x g = Some r -> expand f r = p_esubst f (expand f p) x (expand f g).
+Proof. exact py_esubst_expand. Qed.
+Theorem C11_py_ssubst_through_notation : forall f, f_mv_keep_subst f = true -> f_inst_extend f = true ->
+  forall n p x g r, py_ssubst f n p x g = Some r -> expand f r = p_ssubst f (expand f p) x (expand f g).
+Proof. exact py_ssubst_expand. Qed.
+(** Python = checker whenever the checker accepts (so every checker-side law above transfers) *)
+Theorem C11_py_esubst_agrees_with_checker : forall f, f_mv_keep_subst f = true -> forall g p x plug q,
+  apply_esubst g p x plug = Some q -> p_esubst f p x plug = q.
+Proof. exact apply_esubst_py. Qed.
+Theorem C11_py_ssubst_agrees_with_checker : forall f, f_mv_keep_subst f = true -> forall g p x plug q,
+  apply_ssubst g p x plug = Some q -> p_ssubst f p x plug = q.
+Proof. exact apply_ssubst_py. Qed.
+Theorem C11_py_inst_agrees_with_checker : forall f, f_mv_keep_subst f = true -> forall g vars plugs,
+  length vars = length plugs -> forall p q, wf_meta p = true -> inst g p vars plugs = Some q -> p_inst' f p (zipd vars plugs) = q.
+Proof. exact inst_checker_py. Qed.
+Print Assumptions C11_py_inst_agrees_with_checker.
+Theorem C11_py_esubst_fresh_identity : forall f p x g, concrete p = true -> e_fresh p x = true -> p_esubst f p x g = p.
+Proof. exact p_esubst_fresh_id. Qed.
+Theorem C11_py_deferred_on_metavars : forall f i a b c d e x g, f_mv_keep_subst f = true ->
+  p_esubst f (MVar i a b c d e) x g = ESub (MVar i a b c d e) x g.
+Proof. exact p_esubst_deferred. Qed.
+Theorem C11_py_inst_resolves_pending : forall f i a b c d e x g v s, alookup i s = Some v ->
+  p_inst f (ESub (MVar i a b c d e) x g) s = p_esubst f v x (p_inst f g s).
+Proof. exact p_inst_resolves. Qed.
